@@ -304,6 +304,17 @@ MIXES_N = {
 }
 MIXES = dict(MIXES2)
 MIXES.update(MIXES_N)
+# Un-scheduled stress: no schema-invalid requests.  The scheduled part decides the one piece
+# of per-request state behind them (the validator's error log) deterministically; under free
+# running threads a defect there shows in most but not all runs, and a signature that comes
+# and goes is worse than none.
+STRESS = {
+    "stress:soap": ("soap", ["wsdl", "echo1", "wsdl", "order1", "boom1", "greet1", "echo2"]),
+    "stress:xml": ("xml", ["echo1", "order1", "boom1", "greet1", "echo2", "boom2", "wsdl"]),
+    "stress:json": ("json", ["echo1", "order1", "bad_int", "boom1", "greet1", "echo2"]),
+    "stress:http": ("http", ["echo1", "order1", "bad_len", "boom2", "greet1", "echo2"]),
+}
+MIXES.update(STRESS)
 # the quick tier leaves out three 2-thread mixes whose interactions the others contain
 QUICK_SKIP = ("soap:rpc+rpc-distinct", "json:rpc+rpc-distinct", "http:rpc+rpc-distinct")
 
@@ -686,6 +697,8 @@ def shards(tier):
     out = []
     quick = tier == "quick"
     for mix_id in sorted(MIXES):
+        if mix_id in STRESS:
+            continue
         out.append({"kind": "enum", "part": "k0", "mix": mix_id})
     for mix_id in mixes2(tier):
         for start in (0, 1):
@@ -699,7 +712,7 @@ def shards(tier):
                             "grid": g, "i": i, "of": parts})
     for mix_id in sorted(MIXES):
         n_thr = len(MIXES[mix_id][1])
-        if n_thr == 2 and mix_id not in mixes2(tier):
+        if mix_id in STRESS or (n_thr == 2 and mix_id not in mixes2(tier)):
             continue
         if n_thr > 2:
             n, parts = (100, 2) if quick else (1500, 4)
@@ -708,8 +721,7 @@ def shards(tier):
         for mode in ("pre", "pct"):
             for i in range(parts):
                 out.append({"kind": "hyp", "mix": mix_id, "mode": mode, "i": i, "n": n})
-    for mix_id in ("soap:wsdl+wsdl+rpc+invalid", "xml:rpc+rpc+invalid+raise",
-                   "json:rpc+rpc+invalid+raise", "http:rpc+rpc+invalid"):
+    for mix_id in sorted(STRESS):
         reps = 1 if quick else 6
         for i in range(reps):
             out.append({"kind": "enum", "part": "stress", "mix": mix_id, "i": i,
